@@ -108,6 +108,8 @@ def run(pm, ctx):
     doc_handlers(pm, ctx)
     escaping(pm, ctx, flow)
     coverage(pm, ctx, ia, tas)
+    bracket_pairing(pm, ctx, ia)
+    qualified_names(pm, ctx, tas)
     ctx.extra['templates'] = sorted({b.template for b in bindings})
     ctx.extra['functions_analysed'] = len(flow._all_funcs())
 
@@ -664,6 +666,138 @@ def coverage(pm, ctx, ia, tas):
                   msg='%s no longer unwraps list/map field types in a loop: user types nested '
                       'two containers deep are used without an import' % name,
                   key='C17-R7|%s|unwrap' % f.qualname)
+
+
+def bracket_pairing(pm, ctx, ia):
+    """R8: mapped_list_info returns an opening text (`{ $0.map ` per nesting
+    level) and the matching closing text.  On every feasible path of a
+    function that unpacks them, the closing text is used exactly as often as
+    the opening one -- otherwise a nested list yields unbalanced braces."""
+    from ..paths import enumerate_paths
+    ctx.rule('C17-R8', 'block openers and closers obtained from mapped_list_info are used in pairs '
+                       'on every path (balanced braces for nested lists)')
+    fam = ia.fam
+    n = 0
+    for m in (B + 'swift', B + 'swift_types', B + 'swift_client'):
+        for f in pm.funcs_in(m):
+            pre = suf = None
+            for a in own_nodes(f.node):
+                if isinstance(a, ast.Assign) and isinstance(a.value, ast.Call) and \
+                        call_name(a.value) == 'mapped_list_info' and \
+                        isinstance(a.targets[0], ast.Tuple) and len(a.targets[0].elts) == 5:
+                    e1, e2 = a.targets[0].elts[1], a.targets[0].elts[2]
+                    if isinstance(e1, ast.Name) and isinstance(e2, ast.Name):
+                        pre, suf = e1.id, e2.id
+            if pre is None:
+                continue
+            n += 1
+            bad = set()
+            for p in enumerate_paths(f.node, max_paths=20000):
+                if p.end != 'return':
+                    continue
+                # class-lattice feasibility: the class tests along the path are satisfiable
+                subjects = {}
+                feasible = True
+                for e, pol in p.atoms:
+                    for x in ast.walk(e):
+                        if isinstance(x, ast.Call) and x.args and isinstance(x.func, ast.Name):
+                            subjects.setdefault(unparse(x.args[0]), None)
+                for sj in subjects:
+                    cur = set(fam.universe())
+                    for e, pol in p.atoms:
+                        t = class_test(pm, fam, f.module, e, sj)
+                        if t is not None:
+                            cur &= (t if pol else fam.universe() - t)
+                    if not cur:
+                        feasible = False
+                if not feasible:
+                    continue
+                cp = cs = 0
+                for st in p.stmts:
+                    if isinstance(st, (ast.If, ast.For, ast.While, ast.With, ast.Try)):
+                        continue
+                    names = [x.id for x in ast.walk(st) if isinstance(x, ast.Name) and
+                             isinstance(x.ctx, ast.Load)]
+                    cp += names.count(pre)
+                    cs += names.count(suf)
+                if cp != cs:
+                    bad.add((cp, cs, p.end_node.lineno))
+            ctx.check('C17-R8', not bad, '%s uses %s and %s in pairs on every path' % (
+                f.short, pre, suf), f.loc,
+                msg='%s has a path (returning at line %s) that uses the opener %d time(s) and '
+                    'the closer %d time(s): a list of lists gets unbalanced braces'
+                    % (f.short, sorted({b[2] for b in bad}), sorted(bad)[0][0] if bad else 0,
+                       sorted(bad)[0][1] if bad else 0),
+                key='C17-R8|%s' % f.qualname)
+    ctx.floor('C17-R8', n, 5, 'functions that unpack mapped_list_info')
+
+
+def qualified_names(pm, ctx, tas):
+    """R9: an Objective-C compatible class is named DBX<Namespace><Type> after
+    the namespace *of the type*.  Wherever a template or a backend function
+    spells such a name from a type expression T, the namespace part is
+    T.namespace.name -- not the namespace being rendered (a route may use a
+    type of another namespace)."""
+    ctx.rule('C17-R9', 'DBX<Namespace><Type> names take the namespace from the type they name')
+    n = 0
+    for ta in tas:
+        nodes = ta.nodes
+        for e in ta.tree.find_all((nodes.Add, nodes.Concat)):
+            # flatten a + b + c
+            parts = []
+
+            def flat(x):
+                if isinstance(x, nodes.Add):
+                    flat(x.left)
+                    flat(x.right)
+                elif isinstance(x, nodes.Concat):
+                    for y in x.nodes:
+                        flat(y)
+                else:
+                    parts.append(x)
+            flat(e)
+            for i in range(len(parts) - 2):
+                a, b, c = parts[i:i + 3]
+                if isinstance(a, nodes.Const) and a.value == 'DBX' and \
+                        all(isinstance(x, nodes.Call) and isinstance(x.node, nodes.Name) and
+                            x.node.name == 'fmt_class' and len(x.args) == 1 for x in (b, c)):
+                    tname = jtext(c.args[0])
+                    if not tname.endswith('.name'):
+                        continue
+                    owner = tname[:-len('.name')]
+                    if not owner.endswith('data_type'):
+                        continue
+                    n += 1
+                    ctx.check('C17-R9', jtext(b.args[0]) == owner + '.namespace.name',
+                              '%s: DBX name of %s uses its own namespace' % (ta.b.template, owner),
+                              '%s/%s:%d' % (RSRC, ta.b.template, e.lineno),
+                              msg='%s names the class of %s with the namespace %s: a type of '
+                                  'another namespace gets the name of a class that is never '
+                                  'declared' % (ta.b.template, owner, jtext(b.args[0])),
+                              key='C17-R9|%s|%s' % (ta.b.template, owner))
+    for f in [g for m in MODS for g in pm.funcs_in(m)]:
+        for c in own_nodes(f.node):
+            if isinstance(c, ast.Call) and isinstance(c.func, ast.Attribute) and \
+                    c.func.attr == 'format' and isinstance(c.func.value, ast.Constant) and \
+                    isinstance(c.func.value.value, str) and \
+                    c.func.value.value.startswith('DBX{}{}') and len(c.args) >= 2:
+                a, b = c.args[0], c.args[1]
+                if all(isinstance(x, ast.Call) and call_name(x) == 'fmt_class' and x.args
+                       for x in (a, b)):
+                    tname = unparse(b.args[0])
+                    if not tname.endswith('.name'):
+                        continue
+                    owner = tname[:-len('.name')]
+                    if not owner.endswith('data_type'):
+                        continue      # routes and namespaces are named after where they live
+                    n += 1
+                    ctx.check('C17-R9', unparse(a.args[0]) == owner + '.namespace.name',
+                              '%s: DBX name of %s uses its own namespace' % (f.short, owner),
+                              '%s:%d' % (f.module.relpath, c.lineno),
+                              msg='%s names the class of %s with the namespace %s'
+                                  % (f.short, owner, unparse(a.args[0])),
+                              key='C17-R9|%s|%s' % (f.qualname, owner))
+    ctx.floor('C17-R9', n, 2, 'DBX<Namespace><Type> name constructions')
 
 
 def _ancestors(n):
